@@ -119,7 +119,11 @@ impl FillValueMetadataV3 {
                     hex_string_to_be_bytes(string)?.try_into().ok()?,
                 )),
             },
-            Self::Number(number) => number.as_f64().map(bf16::from_f64),
+            // a JSON number is finite: one beyond the range of the type is not representable
+            Self::Number(number) => number
+                .as_f64()
+                .map(bf16::from_f64)
+                .filter(|f| f.is_finite()),
             _ => None,
         }
     }
@@ -136,7 +140,11 @@ impl FillValueMetadataV3 {
                     hex_string_to_be_bytes(string)?.try_into().ok()?,
                 )),
             },
-            Self::Number(number) => number.as_f64().map(f16::from_f64),
+            // a JSON number is finite: one beyond the range of the type is not representable
+            Self::Number(number) => number
+                .as_f64()
+                .map(f16::from_f64)
+                .filter(|f| f.is_finite()),
             _ => None,
         }
     }
@@ -156,7 +164,8 @@ impl FillValueMetadataV3 {
             Self::Number(number) =>
             {
                 #[allow(clippy::cast_possible_truncation)]
-                number.as_f64().map(|f| f as f32)
+                // a JSON number is finite: one beyond the range of the type is not representable
+                number.as_f64().map(|f| f as f32).filter(|f| f.is_finite())
             }
             _ => None,
         }
